@@ -335,6 +335,12 @@ Lemma sealed_similar :
   sealed traits modules reexports "tensors::operations" "Similar" "private" "Sealed" = true.
 Proof. vm_compute; reflexivity. Qed.
 
+(* the seal also covers the trait's own parameter: `trait Similar<Rhs>: private::Sealed<Rhs>`, so a
+   client cannot write `impl Similar<Mine> for Tensor<..>` either (finding F14) *)
+Lemma seal_covers_rhs :
+  seal_covers_params traits "tensors::operations" "Similar" "private" "Sealed" = true.
+Proof. vm_compute; reflexivity. Qed.
+
 Lemma markers_unsafe : forallb (is_unsafe_trait traits) unsafe_markers = true.
 Proof. vm_compute; reflexivity. Qed.
 
